@@ -69,10 +69,6 @@ def _dataclass_parameters(class_: Class) -> list[Parameter]:
     # Fetch `@dataclass` arguments if any.
     dec_args = _dataclass_arguments(class_.decorators)
 
-    # Parameters not added to `__init__`, return empty list.
-    if dec_args.get("init") == "False":
-        return []
-
     # All parameters marked as keyword-only.
     kw_only = dec_args.get("kw_only") == "True"
 
@@ -174,6 +170,11 @@ def _set_dataclass_init(class_: Class) -> None:
 
     # If the class is not decorated with `@dataclass`, skip it.
     if not _dataclass_decorator(class_.decorators):
+        return
+
+    # With `init=False` no `__init__` is generated for this class (its fields
+    # still count for the `__init__` methods of dataclasses inheriting from it).
+    if _dataclass_arguments(class_.decorators).get("init") == "False":
         return
 
     logger.debug("Handling dataclass: %s", class_.path)
